@@ -20,6 +20,14 @@
 #ifndef VF_T
 #define VF_T float
 #endif
+// VF_FORM selects which matrix form this binary instantiates (each dense form costs 6 instantiations of the whole engine:
+// {Z/2Z, Z/pZ} x {Bitfield-64, Bitfield-128, CNS-128}, plus 6 for the sparse matrix every ripser_auto falls back to):
+//   1 = Full_distance_matrix          routes auto:full, ripser:full
+//   2 = Compressed lower              routes auto:lower, ripser:lower, auto:euclid, help2:<enc>:dense
+//   3 = Compressed upper + Sparse     routes auto:upper, ripser:upper, auto:sparse, help2:<enc>:sparse, edge lists, big
+#ifndef VF_FORM
+#define VF_FORM 3
+#endif
 #define VF_STR2(x) #x
 #define VF_STR(x) VF_STR2(x)
 
@@ -210,27 +218,33 @@ static void run_dense_case(const std::string& cs, const Mat& m, const std::vecto
   }
   Expect e = split_expect(want, m.n, c.dim_max);
   unsigned p = (unsigned)c.p;
+#if VF_FORM == 1
   if (on("auto:full")) compare("auto:full", run_auto(make_full(m), c.dim_max, th.code, p), e);
+  if (on("ripser:full")) compare("ripser:full", run_ripser(make_full(m), c.dim_max, th.code, p), e);
+  (void)pts;
+#elif VF_FORM == 2
   if (on("auto:lower")) compare("auto:lower", run_auto(make_lower(m), c.dim_max, th.code, p), e);
-  if (on("auto:upper")) compare("auto:upper", run_auto(make_upper(m), c.dim_max, th.code, p), e);
-  if (on("auto:sparse")) compare("auto:sparse", run_auto(make_sparse_thr(m, th.code), c.dim_max, th.code, p), e);
+  if (on("ripser:lower")) compare("ripser:lower", run_ripser(make_lower(m), c.dim_max, th.code, p), e);
   if (pts && on("auto:euclid")) {
     std::vector<std::vector<T>> copy = *pts;
     compare("auto:euclid", run_auto(EuclM(std::move(copy)), c.dim_max, th.code, p), e);
   }
-  if (on("ripser:full")) compare("ripser:full", run_ripser(make_full(m), c.dim_max, th.code, p), e);
-  if (on("ripser:lower")) compare("ripser:lower", run_ripser(make_lower(m), c.dim_max, th.code, p), e);
-  if (on("ripser:upper")) compare("ripser:upper", run_ripser(make_upper(m), c.dim_max, th.code, p), e);
   if (on("help2:dense")) {
     compare("help2:b64:dense", run_help2<U64, R::Bitfield_encoding>(make_lower(m), c.dim_max, th.code, p), e);
     compare("help2:b128:dense", run_help2<U128, R::Bitfield_encoding>(make_lower(m), c.dim_max, th.code, p), e);
     compare("help2:cns128:dense", run_help2<U128, R::Cns_encoding>(make_lower(m), c.dim_max, th.code, p), e);
   }
+#else
+  if (on("auto:upper")) compare("auto:upper", run_auto(make_upper(m), c.dim_max, th.code, p), e);
+  if (on("ripser:upper")) compare("ripser:upper", run_ripser(make_upper(m), c.dim_max, th.code, p), e);
+  if (on("auto:sparse")) compare("auto:sparse", run_auto(make_sparse_thr(m, th.code), c.dim_max, th.code, p), e);
   if (on("help2:sparse")) {
     compare("help2:b64:sparse", run_help2<U64, R::Bitfield_encoding>(make_sparse_thr(m, th.code), c.dim_max, th.code, p), e);
     compare("help2:b128:sparse", run_help2<U128, R::Bitfield_encoding>(make_sparse_thr(m, th.code), c.dim_max, th.code, p), e);
     compare("help2:cns128:sparse", run_help2<U128, R::Cns_encoding>(make_sparse_thr(m, th.code), c.dim_max, th.code, p), e);
   }
+  (void)pts;
+#endif
   vf::end_case();
 }
 
